@@ -39,20 +39,20 @@ type segPlan struct {
 }
 
 type corrRec struct {
-	Role       string     `json:"role"` // the REAL side that receives: "server" | "client"
-	Comp       string     `json:"comp"`
-	Envs       []envDesc  `json:"envs"`
-	Plan       []segPlan  `json:"plan"`
-	Payloads   []segObs   `json:"payloads"`  // what the raw peer actually put into each segment
-	Delivered  [][3]int   `json:"delivered"` // (stream id, opcode, body length) in delivery order (server) / events in order (client)
-	Responses  [][3]int   `json:"responses"` // client only: frames delivered to in-flight requests, sorted by stream id
-	Outcome    string     `json:"outcome"`   // ok | abort
-	Conforming bool       `json:"conforming"`
-	Class      string     `json:"class"`
-	TxRole     string     `json:"tx_role"`     // the real side that wrote in modern layout
-	TxFrames   []envDesc  `json:"tx_frames"`   // the frames handed to it, in order
-	TxPayloads []segObs   `json:"tx_payloads"` // the segments it wrote
-	TxCounts   []int      `json:"tx_counts"`   // envelopes per segment
+	Role       string    `json:"role"` // the REAL side that receives: "server" | "client"
+	Comp       string    `json:"comp"`
+	Envs       []envDesc `json:"envs"`
+	Plan       []segPlan `json:"plan"`
+	Payloads   []segObs  `json:"payloads"`  // what the raw peer actually put into each segment
+	Delivered  [][3]int  `json:"delivered"` // (stream id, opcode, body length) in delivery order (server) / events in order (client)
+	Responses  [][3]int  `json:"responses"` // client only: frames delivered to in-flight requests, sorted by stream id
+	Outcome    string    `json:"outcome"`   // ok | abort
+	Conforming bool      `json:"conforming"`
+	Class      string    `json:"class"`
+	TxRole     string    `json:"tx_role"`     // the real side that wrote in modern layout
+	TxFrames   []envDesc `json:"tx_frames"`   // the frames handed to it, in order
+	TxPayloads []segObs  `json:"tx_payloads"` // the segments it wrote
+	TxCounts   []int     `json:"tx_counts"`   // envelopes per segment
 }
 
 type result struct {
@@ -99,8 +99,9 @@ type envPlace struct {
 	Kind    string `json:"kind"`
 	Sid     int    `json:"stream"`
 	Len     int    `json:"bytes"`
-	Bare    bool   `json:"bare_header"` // the envelope is a 9-byte header with an empty body
-	Segment int    `json:"segment"`     // index of the segment that carries it (its first byte); -1: not in the plan
+	Bare    bool   `json:"bare_header"`           // the envelope is a 9-byte header with an empty body
+	Spare   int    `json:"spare_bytes,omitempty"` // bytes of the body after the end of the message
+	Segment int    `json:"segment"`               // index of the segment that carries it (its first byte); -1: not in the plan
 	Self    bool   `json:"self_contained"`
 	Pos     int    `json:"position"` // 1-based among the slices of that segment
 	Of      int    `json:"of"`
@@ -108,7 +109,7 @@ type envPlace struct {
 }
 
 func placeOf(plan []segPlan, i int, spec frameSpec, envLen int) envPlace {
-	pl := envPlace{Index: i, Kind: spec.Kind, Sid: spec.Sid, Len: envLen, Bare: envLen == 9, Segment: -1}
+	pl := envPlace{Index: i, Kind: spec.Kind, Sid: spec.Sid, Len: envLen, Bare: envLen == 9, Spare: spec.Spare, Segment: -1}
 	for s, p := range plan {
 		n := 0
 		for _, sl := range p.Slices {
@@ -128,6 +129,9 @@ func (p envPlace) String() string {
 	what := fmt.Sprintf("envelope %d (%s, stream %d, %d bytes", p.Index, p.Kind, p.Sid, p.Len)
 	if p.Bare {
 		what += ": a bare header with an empty body"
+	}
+	if p.Spare > 0 {
+		what += fmt.Sprintf(", the last %d of its body are spare bytes after the end of the message", p.Spare)
 	}
 	what += ")"
 	if p.Segment < 0 {
@@ -238,6 +242,11 @@ type serverSide struct {
 }
 
 func serveEcho(sc *client.CqlServerConnection, handshake bool) *serverSide {
+	return serveEchoUntil(sc, handshake, sentinelSid)
+}
+
+// stopAt < 0: echo until the connection ends
+func serveEchoUntil(sc *client.CqlServerConnection, handshake bool, stopAt int) *serverSide {
 	s := &serverSide{done: make(chan struct{})}
 	go func() {
 		defer close(s.done)
@@ -260,7 +269,7 @@ func serveEcho(sc *client.CqlServerConnection, handshake bool) *serverSide {
 			if err := sc.Send(r); err != nil {
 				return
 			}
-			if f.Header.StreamId == sentinelSid {
+			if stopAt >= 0 && int(f.Header.StreamId) == stopAt {
 				return
 			}
 		}
@@ -395,8 +404,10 @@ func runLoopback(id string, v primitive.ProtocolVersion, comp primitive.Compress
 // v5: an envelope that does not fit one segment cannot be SENT (model: C15_tx_modern_large_refused; nothing splits
 // outgoing envelopes - a limitation outside C15's quantifier, reported as an observation). What IS required: the failed
 // write ends the connection - the request fails and both ends are closed - instead of leaving the peer waiting.
-//   dir "request":  the real client sends a QUERY of n bytes
-//   dir "response": the real client sends a small QUERY, the real server's handler answers with a Rows result of n bytes
+//
+//	dir "request":  the real client sends a QUERY of n bytes
+//	dir "response": the real client sends a small QUERY, the real server's handler answers with a Rows result of n bytes
+//
 // The verdict is read off the state (request failed, client closed, server connection closed), not off a duration.
 func probeOversizeSend(v primitive.ProtocolVersion, n int, dir string) *result {
 	t0 := time.Now()
@@ -493,7 +504,7 @@ func probeManaged(v primitive.ProtocolVersion, n int) *result {
 		return res
 	}
 	defer cc.Close()
-	_ = serveEcho(sc, false)
+	_ = serveEchoUntil(sc, false, -1)
 	maxId := 0
 	for i := 1; i <= n; i++ {
 		req := frame.NewFrame(v, client.ManagedStreamId, &message.Options{})
@@ -537,7 +548,7 @@ func probeManaged(v primitive.ProtocolVersion, n int) *result {
 // a compression for which it has no compressor: the flagged response cannot be encoded, the failed write ends the connection).
 func probeUnknownCompression(v primitive.ProtocolVersion, name string) *result {
 	t0 := time.Now()
-	res := &result{Kind: "session", ID: fmt.Sprintf("unknown-compression-v%d", v), Mode: "unknowncomp", Version: int(v), Compression: name,
+	res := &result{Kind: "session", ID: fmt.Sprintf("unknown-compression-v%d-%x", v, name), Mode: "unknowncomp", Version: int(v), Compression: name,
 		Script: map[string]interface{}{"startup_compression": name}, Obs: map[string]interface{}{}, Failures: []failure{}}
 	defer func() { res.Millis = time.Since(t0).Milliseconds() }()
 	ctx, cancel := context.WithCancel(context.Background())
@@ -570,9 +581,54 @@ func probeUnknownCompression(v primitive.ProtocolVersion, name string) *result {
 	_ = conn.SetReadDeadline(time.Now().Add(shortTimeout))
 	raw, err := p.rawFrames.DecodeRawFrame(p.rd)
 	res.Obs["startup_answered"] = err == nil && raw != nil
+	res.Obs["startup_response_compressed"] = err == nil && raw != nil && raw.Header.Flags.Contains(primitive.HeaderFlagCompressed)
 	res.Obs["connection_ended"] = err != nil && !isTimeout(err)
 	if err != nil {
 		res.Obs["error"] = err.Error()
+	}
+	return res
+}
+
+// Observation only (a precondition of any exchange, not part of C15's statements): a server listening on a wildcard
+// address (":port", dual stack where the host has IPv6) and a client dialling 127.0.0.1 - does Bind pair them?
+func probeDualStack() *result {
+	t0 := time.Now()
+	res := &result{Kind: "session", ID: "dual-stack-listener", Mode: "dualstack", Version: 4, Compression: "NONE",
+		Script: map[string]interface{}{"listen": ":<port>", "dial": "127.0.0.1:<port>"}, Obs: map[string]interface{}{}, Failures: []failure{}}
+	defer func() { res.Millis = time.Since(t0).Milliseconds() }()
+	ctx, cancel := context.WithCancel(context.Background())
+	defer cancel()
+	var server *client.CqlServer
+	port := ""
+	for try := 0; try < 6; try++ {
+		addr := freeAddr()
+		port = addr[strings.LastIndex(addr, ":"):]
+		server = client.NewCqlServer(port, nil)
+		server.AcceptTimeout = time.Second
+		if err := server.Start(ctx); err == nil {
+			break
+		} else {
+			server = nil
+			res.Obs["start_error"] = err.Error()
+		}
+	}
+	if server == nil {
+		return res
+	}
+	defer func() {
+		if p := recover(); p != nil {
+			res.Obs["panic_on_close"] = fmt.Sprint(p)
+		}
+	}()
+	defer server.Close()
+	clt := client.NewCqlClient("127.0.0.1"+port, nil)
+	cc, _, err := server.Bind(clt, ctx)
+	res.Obs["bind_ok"] = err == nil
+	if err != nil {
+		res.Obs["bind_error"] = err.Error()
+	}
+	if cc != nil {
+		_ = cc.Close()
 	}
 	return res
 }
@@ -582,11 +638,11 @@ type rawScript struct {
 	// StartupComp: the spelling of the COMPRESSION option the raw client puts into STARTUP ("" = the canonical upper-case
 	// name). The specifications, Cassandra's SUPPORTED and the drivers write "lz4" / "snappy"; names are not case-sensitive.
 	StartupComp string      `json:"startup_compression,omitempty"`
-	Specs      []frameSpec `json:"specs"`
-	Plan       []segPlan   `json:"plan"` // over the envelopes of Specs (modern layout only); the sentinel is appended by the harness
-	Chunk      int         `json:"chunk"`
-	Conforming bool        `json:"conforming"`
-	Class      string      `json:"class"`
+	Specs       []frameSpec `json:"specs"`
+	Plan        []segPlan   `json:"plan"` // over the envelopes of Specs (modern layout only); the sentinel is appended by the harness
+	Chunk       int         `json:"chunk"`
+	Conforming  bool        `json:"conforming"`
+	Class       string      `json:"class"`
 }
 
 func obs3(f *frame.Frame) [3]int {
